@@ -48,7 +48,7 @@ def gen_case(ctx, i):
     if i % 7 == 3:  # crowded frame: a 3x3 / 3x2 grid of compact animals, 17-36 peaks per frame (candidate lists of >= 17 elements)
         n_nodes = int(r.choice([3, 4]))
         return {"i": i, "crowd": [3, int(r.choice([2, 3]))], "H": 234, "W": int(r.choice([210, 222])), "max_hw": [None, None], "scale": 1.0, "cms_stride": int(r.choice([1, 2])),
-                "paf_stride": int(r.choice([1, 2, 4])), "n_nodes": n_nodes, "edges": rand_tree(r, n_nodes), "n_animals": 9, "missing_p": float(r.choice([0.0, 0.15])),
+                "paf_stride": int(r.choice([1, 2, 4])), "n_nodes": n_nodes, "edges": rand_tree(r, n_nodes), "n_animals": 9, "missing_p": 0.0,  # complete animals only: with missing nodes a stray peak can be joined to a collinear neighbour's limb (not "well separated")
                 "refinement": [None, "integral"][int(r.integers(0, 2))], "batch": int(r.integers(1, 4)), "max_stride": 16, "n_frames": 2, "seed": int(r.integers(0, 2 ** 31))}
     session = bool(i % 5 == 1)
     return {"i": i, "session": session, "H": H, "W": W, "max_hw": max_hw, "scale": scale, "cms_stride": cms, "paf_stride": paf, "n_nodes": n_nodes, "edges": rand_tree(r, n_nodes),
